@@ -175,6 +175,22 @@ def run(chk, facts, tier, only=None):
             bad.append(n)
         getters = [n for n in method_calls(h["body"], r"^get$") if (expr_path(n["recv"]) or "").endswith("type_map")]
         chk.floor("type_map lookups in encode", len(getters), 3)
+        chk.floor("type indices written by encode", len(bad), 3)
+        # ... and each looked-up index is written as a *signed* LEB128 (the reader takes the same position as a signed number: an unsigned
+        # 64..127 would read back as a negative opcode)
+        uses = [n for n in walk(h["body"]) if n.get("k") in ("call", "mcall") and any(expr_path(x) == "idx" for a in n.get("args", []) for x in walk(a))
+                and not (callee(n) or "").endswith("::from") and not (callee(n) or "").endswith("::deref")]
+        uses = [n for n in uses if not any(u is not n and any(x is u for a in n.get("args", []) for x in walk(a)) for u in uses)]
+        for i, n in enumerate(uses):
+            cal = callee(n) or ""
+            okw = cal.endswith("leb128::write::signed")
+            if not okw and cal in c.hir:
+                inner = [callee(x) or "" for x in walk(c.hir[cal]["body"]) if x.get("k") == "call"]
+                okw = any(x.endswith("leb128::write::signed") for x in inner) and not any(x.endswith("leb128::write::unsigned") for x in inner)
+            chk.expect(okw, f"encode:index-signed:{i}",
+                       f"TypeSerialize::encode hands a type-table index to `{cal}`, which does not write it as a signed LEB128: indices 64..127 would be "
+                       f"read back as negative (primitive / future) opcodes and tables with more than 64 entries become unreadable",
+                       where=f"rust/candid/src/ser.rs:{n.get('ln')}", ok_detail="sleb128")
         # type_map caches table indices under the *name* of a type variable, so over the life of one builder a name must keep denoting one
         # definition: the serializer's environment may only grow through TypeEnv::merge, which refuses to rebind a name differently
         muts = []
